@@ -1175,9 +1175,23 @@ fn known_inputs() -> Vec<(String, String)> {
         ("r2:A9-tcp-timeout", "(()&tcpswt)()1e38[]\n&tcpsrt 1e38 0\n&tcpsrt NaN 0".to_string()),
         ("r2:C1-try-timeout", "F ← |1 ⍣F F\nF 1".to_string()),
         ("r2:C1-try-timeout2", "F ← |1 ⍣(F|F)\nF 1".to_string()),
-        // still open when round 2 landed
-        ("open:ecow-capacity", "\"\"⬚@-°⟜⊏[4 2 1e19]\"abc\"".to_string()),
-        ("open:rows-reduce-min-huge", "≡/↧↯4294967296_0e".to_string()),
+        // repaired in round 3: must stay quiet
+        ("r3:ecow-capacity", "\"\"⬚@-°⟜⊏[4 2 1e19]\"abc\"".to_string()),
+        ("r3:rows-reduce-min-huge", "≡/↧↯4294967296_0e\n≡/↧ ↯4294967296_0 0".to_string()),
+        ("r3:anti-select-huge", "⬚0⌝⊏1e10 [1 2]".to_string()),
+        ("r3:anti-select-huge-scalar", "⬚0⌝⊏ 1e10 5".to_string()),
+        ("r3:anti-select-index-overflow", "⬚0⌝⊏1e19 ⇡9".to_string()),
+        ("r3:keep-list-huge", "▽ [¯1e10 1e10] [1 2]".to_string()),
+        ("r3:fill-pervade-new-array", "⬚0+ ↯2_3_0 π ↯2_2_4 π".to_string()),
+        ("r3:recursive-index-macro", "# Experimental!\nF! ← |1 F!^0\nF!(+1) 1".to_string()),
+        ("r3:un-json-deep", "# Experimental!\n°json⊂⊂ ↯1e5@[ \"1\" ↯1e5@]".to_string()),
+        ("r3:un-json5-deep", "# Experimental!\n°json $\"_1_\" ↯3e4@[ ↯3e4@]".to_string()),
+        // still open when round 3 landed
+        ("open:anti-drop-huge", "⌝↘1e10 ↯3_3⇡9".to_string()),
+        ("open:bare-bangs", "!".repeat(40000)),
+        ("open:undo-keep-empty-rows", "⍜(▽1_1_7)⇌↯2_0_2 0".to_string()),
+        ("open:undo-select-rank-underflow", "⬚0⍜(⊏¯4)⇌↯3_0 0".to_string()),
+        ("open:range-zero-dim-overflow", "⇡1e10_4e10_0".to_string()),
     ];
     v.into_iter().map(|(n, s)| (n.to_string(), s)).collect()
 }
